@@ -53,11 +53,12 @@ def make_chain(rng, sched, k, total, chain_len):
     return specs
 
 
-def scenario_chains(ck, cfg, seed, quick, idx):
+def scenario_chains(ck, cfg, seed, quick, idx, extra=None):
     """control run, then a chain for every stop point and scheduler"""
     rng = random.Random(seed)
     control = {'cfg': cfg, 'specs': [{'sched': 'batch', 'choices': [], 'stop': None}], 'seed': seed,
                'argv': ['-f'] if rng.random() < 0.15 else []}
+    control.update(extra or {})
     r = c06.run_scenario(ck, control, 'c%d-control' % idx)
     if r is None:
         return []
@@ -614,7 +615,17 @@ def run(ck):
         ck.count('corpus')
     while done < n_scen and idx < n_scen * 6:
         cfg = dp.gen_config(ck.rng, {'max_exp': 2, 'max_inv': 3, 'builds': True})
-        its = scenario_chains(ck, cfg, ck.rng.randint(0, 10 ** 9), quick, idx)
+        extra = None
+        if done % 4 == 3:
+            # several data files of which the one defined first never comes into being (its runs only fail)
+            # while the later ones hold data: every restart has to load the files that exist
+            for _ in range(60):
+                if len(set(dp.exp_file(cfg, x) for x in cfg['experiments'])) >= 2:
+                    break
+                cfg = dp.gen_config(ck.rng, {'max_exp': 3, 'max_inv': 2, 'builds': False})
+            extra = {'dead_files': [0]}
+            ck.count('scenario:first-file-never-created')
+        its = scenario_chains(ck, cfg, ck.rng.randint(0, 10 ** 9), quick, idx, extra)
         idx += 1
         if its:
             done += 1
